@@ -86,9 +86,6 @@ package shell_operator
 //@ package github.com/flant/shell-operator/pkg/hook/controller
 //@ trusted func (*HookController).SnapshotsInfo
 //@   modifies nothing
-//@ package github.com/flant/shell-operator/pkg/webhook/admission
-//@ trusted func (*Response).Dump
-//@   modifies nothing
 //@ package github.com/flant/shell-operator/pkg/webhook/conversion
 //@ trusted func (*Response).Dump
 //@   modifies nothing
